@@ -23,7 +23,8 @@ EXPLANATION = (
     "(intervals + polynomial congruences modulo BASE over the MIR, branches refine, paths join): for all Adler-32 arguments and all "
     "lengths the two halves of the result are in [0, BASE) and congruent to a1+a2-1 and b1+b2+len2*(a1-1), i.e. equal to the "
     "checksum of the concatenation, and no operation wraps. The vector arithmetic itself, tail handling and crc32_combine's "
-    "GF(2) loop are NOT decided.")
+    "GF(2) loop are NOT decided. "
+    "FLOW/crc-start: crc32() builds its fold state with new_with_initial(start) and passes start to fold; the fallbacks of Crc32Fold::fold continue from self.value.")
 
 CLAIM = dict(
     text="Static: every checksum table and folding constant is recomputed from the polynomial / prime definitions and compared "
